@@ -327,10 +327,12 @@ class Gen:
             return Field(name, t, "skip")
         return Field(name, t)
 
-    def fields(self, shape, nmax=5):
+    def fields(self, shape, nmax=5, exact=None):
         if shape == "unit":
             return []
         n = self.r.choice([0, 1, 1, 2, 2, 3, 4, nmax]) if shape != "unit" else 0
+        if exact is not None:
+            n = exact
         return [self.field(i, shape) for i in range(n)]
 
     def register(self, d):
@@ -387,7 +389,9 @@ class Gen:
         variants = []
         for i in range(nv):
             shape = "unit" if fieldless else r.choice(["unit", "tuple", "named"])
-            variants.append(Variant(f"V{i}", shape, self.fields(shape, 3)))
+            # now and then a very wide variant: the number of fields is not limited by anything
+            wide = r.choice([139, 150, 260]) if shape != "unit" and r.random() < 0.04 else None
+            variants.append(Variant(f"V{i}", shape, self.fields(shape, 3, exact=wide)))
         mode = force or r.choice(["position", "attr", "disc", "mixed", "mixed", "skipmix"])
         d = Def(self.fresh("E"), "enum", variants=variants, repr_u8=repr_u8)
         # skipped variants
